@@ -487,6 +487,9 @@ func (c *Cfg) YAML(root string) string {
 // ChangelogYAML renders a chglog file.
 func (c *Cfg) ChangelogYAML() string {
 	var b strings.Builder
+	if len(c.Changelog) == 0 {
+		return "[]\n" // a changelog file without entries
+	}
 	for _, e := range c.Changelog {
 		fmt.Fprintf(&b, "- semver: %s\n  date: %s\n  packager: %s\n  changes:\n", e.Semver,
 			time.Unix(int64(e.Date), 0).UTC().Format(time.RFC3339), yq(e.Packager))
